@@ -37,6 +37,10 @@ GPathCtm == { Ins("cm", <<N(0), N(1), N(-1), N(0), N(3), N(0)>>), Ins("cm", <<N(
               Ins("l", <<N(5), N(4)>>) \o Ins("l", <<N(0), N(4)>>), Ins("l", <<N(0), N(0)>>), <<Op("h")>>,
               <<Op("B*")>>, <<Op("s")>>, <<Op("q")>>, <<Op("Q")>>, Ins("w", <<N(2)>>), Ins("d", <<Arr(<<N(2), N(1)>>), N(0)>>),
               Ins("v", <<N(1), N(2), N(3), N(4)>>), Ins("y", <<N(1), N(2), N(3), N(4)>>) }
+\* every painting operator after every kind of (possibly open, possibly empty) path
+GPaint == { Ins("m", <<N(0), N(0)>>) \o Ins("l", <<N(5), N(0)>>) \o Ins("l", <<N(5), N(4)>>), Ins("re", <<N(1), N(1), N(4), N(3)>>),
+            Ins("m", <<N(2), N(2)>>), <<Op("h")>>,
+            <<Op("S")>>, <<Op("s")>>, <<Op("f")>>, <<Op("F")>>, <<Op("f*")>>, <<Op("B")>>, <<Op("B*")>>, <<Op("b")>>, <<Op("b*")>>, <<Op("n")>> }
 Painter == Ins("re", <<N(0), N(0), N(2), N(2)>>) \o <<Op("B")>>
 GColor == { Ins("g", <<N(1)>>), Ins("G", <<N(0)>>), Ins("rg", <<N(1), N(0), N(0)>>), Ins("RG", <<N(0), N(1), N(0)>>),
             Ins("k", <<N(0), N(0), N(0), N(1)>>), Ins("K", <<N(1), N(0), N(0), N(0)>>), Ins("cs", <<Nm("DeviceRGB")>>), Ins("CS", <<Nm("DeviceCMYK")>>),
@@ -63,6 +67,7 @@ InitPos(L)   == InitGroup(GPos, L, PreText, <<Op("ET")>>)
 InitSpace(L) == InitGroup(GSpace, L, PreText, <<Str(A), Op("Tj"), Op("ET")>>)
 InitState(L) == InitGroup(GState, L, PreText, <<Str(A), Op("Tj"), Op("ET")>> \o Painter)
 InitPath(L)  == InitGroup(GPath, L, <<>>, <<Op("S")>>)
+InitPaint(L) == InitGroup(GPaint, L, <<>>, <<Op("S")>>)
 InitPathCtm(L) == InitGroup(GPathCtm, L, <<>>, <<Op("B")>>)
 InitColor(L) == InitGroup(GColor, L, PreText, Painter)
 InitBad == \E b \in BadOps : Start(PreText \o GoodPre \o b \o Probe, Ident)
@@ -83,7 +88,7 @@ ZeroOps == { Ins("Tc", <<N(0)>>), Ins("Tw", <<N(0)>>), Ins("TL", <<N(0)>>), Ins(
 InitZero == \E z \in ZeroOps : Start(ZeroPre \o z \o Probe, Ident)
 InitZero2 == \E z1 \in ZeroOps, z2 \in ZeroOps : Start(ZeroPre \o z1 \o <<Str(A), Op("Tj")>> \o z2 \o Probe, Ident)
 
-MixPoolAll == GPos \cup GSpace \cup GState \cup GPath \cup GPathCtm \cup GColor
+MixPoolAll == GPos \cup GSpace \cup GState \cup GPath \cup GPathCtm \cup GColor \cup GPaint
 NoPool == {}
 InitMixed == Start(PreText, Ident)
 
